@@ -254,6 +254,7 @@ func Execute(rc *core.RunCtx, cfg Cfg) *Out {
 	defer cancel()
 	done := make(chan struct{})
 	var payloads []*Payload
+	var retained []*graphql.Response
 	var pmu sync.Mutex
 	isMutation := false
 	if doc, lerr := gqlparser.LoadQuery(u.Schema, cfg.Op.Query); len(lerr) == 0 {
@@ -297,8 +298,11 @@ func Execute(rc *core.RunCtx, cfg Cfg) *Out {
 				if r == nil {
 					return
 				}
+				// the consumer keeps the *graphql.Response values and looks at them only when the
+				// sequence is over (as the multipart aggregator does): a payload must stay
+				// intact while later ones are produced
 				pmu.Lock()
-				payloads = append(payloads, toPayload(r))
+				retained = append(retained, r)
 				pmu.Unlock()
 				if cfg.Single {
 					return
@@ -377,6 +381,9 @@ func Execute(rc *core.RunCtx, cfg Cfg) *Out {
 	}
 	out.Done = finished
 	pmu.Lock()
+	for _, r := range retained {
+		payloads = append(payloads, toPayload(r))
+	}
 	out.Payloads = append([]*Payload(nil), payloads...)
 	pmu.Unlock()
 	out.Recovered = int(srv.recovered.Load() - rec0)
